@@ -170,6 +170,7 @@ def run(ctx, rep):
                 rep.finding(R2, f'C09.R2/{mod}:{qn}/side-effect/{b}', m.loc(mod, fn), qn, f'scoring function has a side effect `{b}`')
     rep.floor('C09.R2', 'scoring functions', nsc, 12)
 
+    fairness_rule(ctx, rep)
     R3 = rep.rule('C09.R3', 'build() is the step() loop')
     b = m.func(TAB, 'Tableau.build')
     si = m.func(TAB, 'Tableau.stepiter')
@@ -183,3 +184,21 @@ def run(ctx, rep):
     rep.consult(m.loc(TAB, b) + ' Tableau.build', m.loc(TAB, si) + ' Tableau.stepiter')
     if not ok:
         rep.finding(R3, 'C09.R3/stepiter', m.loc(TAB, si), 'Tableau.stepiter', 'is no longer "call step() until it returns nothing"')
+
+
+def fairness_rule(ctx, rep):
+    from .. import fairness
+    m = ctx.m
+    R = rep.rule('C09.R4', 'order independence: asking whether a node is least-applied does not change the counts (no inserting read of a defaultdict counter)')
+    hits, ncls = fairness.inserting_reads(m)
+    rep.floor('C09.R4', 'aggregated defaultdict counters', ncls, 1)
+    for ref, cd, vt, aggs in fairness.counter_classes(m):
+        rep.consult(f'{m.loc(ref.module, cd)} {ref.qualname}')
+    if not hits:
+        rep.instance(R, ok=True, nontrivial='no-inserting-read')
+    for ref, fn, node in hits:
+        rep.instance(R, ok=False, nontrivial=(ref.qualname, fn.name))
+        rep.finding(R, f'C09.R4/{ref.qualname}.{fn.name}', m.loc(ref.module, node), f'{ref.qualname}.{fn.name}',
+                    f'`{ast.unparse(node)}` subscripts the per-branch defaultdict: merely asking inserts a zero count, which {ref.qualname}\'s '
+                    f'aggregate over .values() then sees -- nodes that can never be applied pin the minimum, applied nodes are never least again '
+                    f'(unsaturated "invalid" verdicts that depend on premise order / options)')
